@@ -497,6 +497,11 @@ func strideProven(f *ssa.Function, data, off ssa.Value, need int64, at *ssa.Basi
 			for _, mp := range [][2]ssa.Value{{m.X, m.Y}, {m.Y, m.X}} {
 				s, ok := cInt((mp[0]))
 				if ok && s == step && sameValue(canonConv(mp[1]), canonConv(n)) {
+					// the product must be computed in a type that holds stride * (largest count): a product taken
+					// in the count's own narrow type wraps, and the guard then accepts registers that are too short
+					if !productFits(m, mp[1], step) {
+						return false, fmt.Sprintf("the expected length %d*n is computed in %s, which cannot hold the product for every decoded count: it wraps, and a register much shorter than %d*n passes the length check", step, m.Type().String(), step)
+					}
 					return true, fmt.Sprintf("stride loop: len(data[%d:]) == %d*n guards n iterations of stride %d; read of %d at +%d", init, step, step, need, k)
 				}
 			}
@@ -989,4 +994,52 @@ func equalLenGuard(f *ssa.Function, m, x ssa.Value, at *ssa.BasicBlock) bool {
 		}
 	}
 	return false
+}
+
+func intBits(t types.Type) int {
+	b, ok := t.Underlying().(*types.Basic)
+	if !ok || b.Info()&types.IsInteger == 0 {
+		return 0
+	}
+	switch b.Kind() {
+	case types.Int8, types.Uint8:
+		return 8
+	case types.Int16, types.Uint16:
+		return 16
+	case types.Int32, types.Uint32:
+		return 32
+	}
+	return 64
+}
+
+// productFits: the multiplication m = step * count is carried out in a type wide enough for step times the
+// largest value of the narrowest type the count has passed through.
+func productFits(m *ssa.BinOp, count ssa.Value, step int64) bool {
+	have := intBits(m.Type())
+	if have == 0 {
+		return false
+	}
+	if b, ok := m.Type().Underlying().(*types.Basic); ok && b.Info()&types.IsUnsigned == 0 {
+		have-- // sign bit
+	}
+	nb := 64
+	v := count
+	for d := 0; d < 6; d++ {
+		if w := intBits(v.Type()); w != 0 && w < nb {
+			nb = w
+		}
+		cv, ok := canon(v).(*ssa.Convert)
+		if !ok {
+			if w := intBits(canon(v).Type()); w != 0 && w < nb {
+				nb = w
+			}
+			break
+		}
+		v = cv.X
+	}
+	sb := 0
+	for x := step; x > 0; x >>= 1 {
+		sb++
+	}
+	return nb+sb <= have || have >= 63
 }
